@@ -25,14 +25,14 @@ def envs_for(rng, n, quick):
 
 def gen_cases(tier, seed):
     quick = tier == "quick"
-    total = 2200 if quick else 30000
+    total = 3000 if quick else 36000
     for i in range(total):
         rng = Rng(derive(seed, PROP, "graph", i))
         spec = gens.modules.generate(rng, max_mods=4 if (quick and i % 3) else 5)
         g = {"family": "modules", "spec": spec, "unordered": False}
         erng = Rng(derive(seed, PROP, "env", i))
         yield {"prop": PROP, "id": "g%d" % i, "batch": "graphs", "gen": g, "envs": envs_for(erng, 4 if quick else 6, quick)}
-    for i in range(300 if quick else 3000):
+    for i in range(400 if quick else 4000):
         rng = Rng(derive(seed, PROP, "neg", i))
         spec = gens.modules.generate(rng, max_mods=4, negative=True)
         g = {"family": "modules", "spec": spec, "unordered": False}
